@@ -12,12 +12,7 @@ PID = "C10"
 PROPS_FILE = "Props/C10.v"
 GEN_FILES: list[str] = []
 MODEL_FILES = ["Model/C10_als.v", "Model/C10_funksvd.v"]
-ALLOWED_AXIOMS = [
-    # primitive machine integers / binary64 floats of Coq's standard library (FunkSVD float instance only)
-    r"(Uint63|PrimInt63|Coq\.Numbers\.Cyclic\.Int63\.(Uint63|PrimInt63))\.[A-Za-z0-9_']+",
-    r"(PrimFloat|FloatOps|FloatAxioms|Coq\.Floats\.(PrimFloat|FloatOps|FloatAxioms))\.[A-Za-z0-9_']+",
-    r"(int|float|add|sub|mul|ltb|of_uint63|land|lsl|lsr|lor|eqb|leb|opp|abs|compare|classify|normfr_mantissa|frshiftexp|ldshiftexp|next_up|next_down|sqrt|div|of_int63|lxor|mulc|diveucl|diveucl_21|addmuldiv|head0|tail0|subc|addc|addcarryc|subcarryc|mod|to_Z)",
-]
+ALLOWED_AXIOMS: list[str] = []   # every theorem of Props/C10.v is closed under the global context
 CASE_HEADER = (
     "From Coq Require Import ZArith QArith PrimFloat.\n"
     "From LK Require Import Lib.QLib Model.C10_als Model.C10_funksvd.\n"
@@ -40,7 +35,7 @@ ASSUMPTIONS = [
     "the ALS fan-out over row chunks (TorchScript fork) computes the same per-row function as the sequential path (rows are independent in the model; >50-row runs are in the thorough tier)",
     "numba compiles the FunkSVD loop without floating-point contraction or reassociation (checked: features reproduce bit for bit)",
 ]
-RULE = ("structured generator: 2-9 users x 2-10 items (12x12 in the thorough tier), half-star ratings, optional users/items without data, "
+RULE = ("structured generator: 2-9 users x 2-10 items (12x12 in the thorough tier; every 75th case 52-58 users so that explicit ALS takes its fork/wait fan-out), half-star ratings, optional users/items without data, "
         "embedding size 1-4, 0-3 epochs, scalar or per-side regularisation (dyadic and non-dyadic), damping scalar or per entity, "
         "confidence weight, use_ratings, each user-embedding policy, float32 or float64 rating column, 3-5 scoring queries "
         "(known/unknown/no user; no/empty/known/partly-unknown/all-unknown history; known and unknown candidates); FunkSVD with 1-3 features, "
@@ -62,9 +57,11 @@ WEIGHTS = ["40/1", "1/1", "5/2", "10/1", "1/2"]
 DAMPS = ["0/1", "5/1", "5/2", "1/1"]
 
 
-def gen_dataset(rng, big=False):
+def gen_dataset(rng, big=False, wide=False):
     hi = 12 if big else 9
     nu, ni = rng.randint(2, hi - 1 if not big else hi), rng.randint(2, hi)
+    if wide:            # more than 50 rows on the user side: the TorchScript fork/wait fan-out of explicit ALS
+        nu, ni = rng.randint(52, 58), rng.randint(2, 4)
     uids = rng.sample(list(range(1, 60)), nu)
     iids = rng.sample(list(range(100, 180)), ni)
     dens = rng.choice([3, 5, 7])
@@ -106,16 +103,16 @@ def gen_queries(rng, users, items, explicit_hist=True):
     return qs
 
 
-def gen_case(rng, tier, malformed=False):
-    kind = rng.weighted([("als-explicit", 4), ("als-implicit", 4), ("funksvd", 3)])
-    users, items, ratings = gen_dataset(rng, big=(tier != "quick" and rng.chance(1, 3)))
+def gen_case(rng, tier, malformed=False, wide=False):
+    kind = "als-explicit" if wide else rng.weighted([("als-explicit", 4), ("als-implicit", 4), ("funksvd", 3)])
+    users, items, ratings = gen_dataset(rng, big=(tier != "quick" and rng.chance(1, 3)), wide=wide)
     case = {"kind": kind, "users": users, "items": items, "ratings": ratings,
             "rating_dtype": rng.choice(["f32", "f64"]), "seed": rng.randint(0, 2**31 - 1),
             "damping": ({"user": rng.choice(DAMPS), "item": rng.choice(DAMPS)} if rng.chance(1, 4) else rng.choice(DAMPS)),
             "queries": gen_queries(rng, users, items)}
     if kind.startswith("als"):
-        case["k"] = rng.randint(1, 4)
-        case["epochs"] = rng.weighted([(1, 4), (2, 4), (3, 2)])
+        case["k"] = rng.randint(1, 4) if not wide else 2
+        case["epochs"] = rng.weighted([(1, 4), (2, 4), (3, 2)]) if not wide else 1
         case["reg"] = [rng.choice(REGS), rng.choice(REGS)] if rng.chance(1, 3) else rng.choice(REGS)
         case["user_embeddings"] = rng.weighted([(True, 5), (False, 2), ("prefer", 3)])
         if kind == "als-implicit":
@@ -135,13 +132,13 @@ def gen_case(rng, tier, malformed=False):
         case["range"] = None if rk == "none" else (["1/2", "5/1"] if rk == "normal" else ["3/1", "4/1"])
         if malformed:
             case["range"] = ["4/1", "2/1"]      # inverted range
-    case["style"] = kind + ("/malformed" if malformed else "")
+    case["style"] = kind + ("/malformed" if malformed else "") + ("/wide" if wide else "")
     return case
 
 
 def gen_cases(rng, tier):
-    n = 150 if tier == "quick" else 1200
-    return [gen_case(rng.fork(k), tier, malformed=(k % 10 == 9)) for k in range(n)]
+    n = 150 if tier == "quick" else 900
+    return [gen_case(rng.fork(k), tier, malformed=(k % 10 == 9), wide=(k % 75 == 74)) for k in range(n)]
 
 
 # ---------------------------------------------------------------------------------------------
